@@ -94,7 +94,7 @@ def connect(srv, sc, **kw):
     if tr == 'tls':
         import ssl
         return manager.connect_tls(host='127.0.0.1', port=srv.port, certfile=os.path.join(CERT_DIR, 'test.pem'),
-                                   keyfile=os.path.join(CERT_DIR, 'test.key'), ca_certs=sc.get('ca_certs') or pki()['ca'],
+                                   keyfile=os.path.join(CERT_DIR, 'test.key'), ca_certs=(None if sc.get('ca_certs') is False else (sc.get('ca_certs') or pki()['ca'])),
                                    protocol=getattr(ssl, sc.get('protocol', 'PROTOCOL_TLS_CLIENT')), check_hostname=sc.get('check_hostname', True),
                                    server_hostname=sc.get('server_hostname'), device_params=dp, **kw)
     if tr == 'ssh':
